@@ -754,6 +754,57 @@ func suiteNumFun(o *Out, thorough bool, seed int64) {
 			}
 		}
 	}
+	// the same three functions against references of 300 bits computed from the DECIMAL argument (series and Newton
+	// iterations over math/big): no float64 in the argument or in the reference, so the comparison is sharp
+	// everywhere, also next to 1 where ln and log lose every digit a float64 argument would have carried
+	{
+		worst := map[string]float64{}
+		judge := func(fn, a string, ref *big.Float) {
+			t := fn + "(" + a + ")"
+			got := ev(t)
+			if !strings.HasPrefix(got, "V D+:") && !strings.HasPrefix(got, "V D-:") {
+				o.Fail(line(t), fmt.Sprintf("%s: %s, required about %s", t, got, ref.Text('g', 20)))
+				return
+			}
+			p := strings.Split(got[3:], ":")
+			g, _, _ := big.ParseFloat(p[1]+"e"+p[2], 10, 300, big.ToNearestEven)
+			if p[0] == "-" {
+				g.Neg(g)
+			}
+			if ref.Sign() == 0 {
+				if g.Sign() != 0 {
+					o.Fail(line(t), fmt.Sprintf("%s: %s, required 0", t, got))
+				}
+				return
+			}
+			d := new(big.Float).Sub(g, ref)
+			d.Quo(d, ref)
+			e, _ := d.Abs(d).Float64()
+			if e > worst[fn] {
+				worst[fn] = e
+			}
+			if e > 2e-15 {
+				o.Fail(line(t), fmt.Sprintf("%s disagrees with the real function in the 15th significant digit: %s, required %s (relative error %.3g)", t, got, ref.Text('g', 22), e))
+			}
+		}
+		args := []string{"1", "2", "10", "0.5", "1.000000000000001", "0.999999999999999", "1.00001", "0.99999", "2.718281828459045", "1e-15", "9.99999999999999e14", "7", "100", "0.1", "3.3", "1.5", "123456789012345"}
+		for i := 0; i < 200 || (thorough && i < 4000); i++ {
+			args = append(args, fmt.Sprintf("%se%d", randCoef(r, 1+r.Intn(15)), r.Intn(31)-15))
+		}
+		for _, a := range args {
+			x, _, _ := big.ParseFloat(a, 10, 300, big.ToNearestEven)
+			if x.Sign() > 0 {
+				ln := bigLn(x)
+				judge("ln", a, ln)
+				judge("log", a, new(big.Float).Quo(ln, bigLn(big.NewFloat(10).SetPrec(300))))
+			}
+			if xf, _ := x.Float64(); xf < 200 && xf > -200 {
+				judge("exp", a, bigExp(x))
+				judge("exp", "-"+a, bigExp(new(big.Float).Neg(x)))
+			}
+		}
+		o.Stat(fmt.Sprintf("transcendental references: %d arguments; worst relative error ln %.2g log %.2g exp %.2g", len(args), worst["ln"], worst["log"], worst["exp"]))
+	}
 	for k := -15; k <= 15; k++ {
 		t := fmt.Sprintf("log(1e%d)", k)
 		if got := ev(t); !rel(got, float64(k)) {
@@ -1568,4 +1619,44 @@ func enc2(v interface{}) string {
 	var sb strings.Builder
 	encValDepth(&sb, v, 0)
 	return sb.String()
+}
+
+// bigExp: e^x at 300 bits: the argument is halved until it is below 2^-10, the series is summed, the result squared back
+func bigExp(x *big.Float) *big.Float {
+	const prec = 300
+	y := new(big.Float).SetPrec(prec).Set(x)
+	n := 0
+	lim := big.NewFloat(1.0 / 1024)
+	for new(big.Float).Abs(y).Cmp(lim) > 0 {
+		y.Quo(y, big.NewFloat(2))
+		n++
+	}
+	sum := new(big.Float).SetPrec(prec).SetInt64(1)
+	term := new(big.Float).SetPrec(prec).SetInt64(1)
+	for k := 1; k < 40; k++ {
+		term.Mul(term, y)
+		term.Quo(term, new(big.Float).SetPrec(prec).SetInt64(int64(k)))
+		sum.Add(sum, term)
+	}
+	for ; n > 0; n-- {
+		sum.Mul(sum, sum)
+	}
+	return sum
+}
+
+// bigLn: Newton's iteration y += 2 (x - e^y) / (x + e^y) from the float64 logarithm
+func bigLn(x *big.Float) *big.Float {
+	const prec = 300
+	// bring x into float64 range by its binary exponent: ln x = ln m + e ln 2
+	xf, _ := x.Float64()
+	y := new(big.Float).SetPrec(prec).SetFloat64(math.Log(xf))
+	for i := 0; i < 6; i++ {
+		ey := bigExp(y)
+		num := new(big.Float).SetPrec(prec).Sub(x, ey)
+		den := new(big.Float).SetPrec(prec).Add(x, ey)
+		num.Quo(num, den)
+		num.Mul(num, big.NewFloat(2))
+		y.Add(y, num)
+	}
+	return y
 }
